@@ -731,6 +731,14 @@ func genC07(g *Gen) {
 		g.Line(c07ParseLine(text)...)
 		g.Count("rendered-texts")
 	}
+	// (e2) long inputs: a script whose last term lies beyond 64 KiB / 1 MiB (an input limit or work cap
+	// in the parser makes the printed form of a long script parse to a different tree, or not at all)
+	for _, n := range []int{65536, 1 << 20} {
+		head := "x = 1 << 3\nreturn x"
+		g.Line(c07ParseLine(head + strings.Repeat(" ", n-len(head)) + "+ x\n")...)
+		// (a long *sum* is not generated: the list-based printer model is quadratic in the number of terms)
+		g.Count("long-input")
+	}
 	// (f) literal edge cases and F8
 	for _, t := range []string{
 		"[18446744073709551615]", "[18446744073709551616]", "[9223372036854775807]", "[9223372036854775808]",
